@@ -117,7 +117,7 @@ impl TlsConnector {
 //@end
 }
 
-//@extract file=actix-tls/src/connect/native_tls.rs item="impl<R, IO> Service<Connection<R, IO>> for TlsConnector / fn call" async_block=1 block_sig="async fn call_block<R: Host, IO>(stream: Connection<R, ()>, io: IO, connector: AsyncNativeTlsConnector) -> Result<Connection<R, AsyncTlsStream<IO>>, io::Error>" ret=r props=C19 name=native_tls::call_block str_lits closure_ty="Connection<R, AsyncTlsStream<IO>>@@o.req == stream.req && o.io == res;;-" closures=1
+//@extract file=actix-tls/src/connect/native_tls.rs item="impl<R, IO> Service<Connection<R, IO>> for TlsConnector / fn call" async_block=1 block_sig="async fn call_block<R: Host, IO>(stream: Connection<R, ()>, io: IO, connector: AsyncNativeTlsConnector) -> Result<Connection<R, AsyncTlsStream<IO>>, io::Error>" ret=r props=C19 name=native_tls::call_block str_lits closure_ty="Connection<R, AsyncTlsStream<IO>>@@o.req == stream.req && o.io == res;;-" closures=1 bind="connector=self.connector.clone()"
 //@spec
     requires true,
     ensures
@@ -130,7 +130,7 @@ impl TlsConnector {
 //@end
 
 impl TlsConnector {
-//@extract file=actix-tls/src/connect/native_tls.rs item="impl<R, IO> Service<Connection<R, IO>> for TlsConnector / fn call" ret=r props=C19 name=native_tls::call sig_replace="fn call(&self, stream: Connection<R, IO>)=>fn call<R: Host, IO>(&self, stream: Connection<R, IO>)" async_block_call="call_block(stream, io, connector)"
+//@extract file=actix-tls/src/connect/native_tls.rs item="impl<R, IO> Service<Connection<R, IO>> for TlsConnector / fn call" ret=r props=C19 name=native_tls::call sig_replace="fn call(&self, stream: Connection<R, IO>)=>fn call<R: Host, IO>(&self, stream: Connection<R, IO>)" async_block_call="call_block(stream, io, connector)" bind="connector=self.connector.clone()"
 //@spec
     requires true,
 //@insert before="Box::pin("
